@@ -55,25 +55,25 @@ func (V *Verifier) messageTypes() []*MsgType {
 
 // EncPath is one successful path through Encode in the ok run.
 type EncPath struct {
-	Cond    []*Term          // branch conditions on the inputs (e.g. Body == nil)
-	Segs    []*Term          // bytes appended, segment by segment
-	Post    map[int]Value    // receiver fields after the call
-	PostSt  *State
-	Calls   []*CallRecord
-	Tag     string
+	Cond   []*Term       // branch conditions on the inputs (e.g. Body == nil)
+	Segs   []*Term       // bytes appended, segment by segment
+	Post   map[int]Value // receiver fields after the call
+	PostSt *State
+	Calls  []*CallRecord
+	Tag    string
 }
 
 type EncInfo struct {
-	T       *MsgType
-	Recv    *Obj
-	Fields  map[int]Value // symbolic field values before the call
-	U0      *Term
-	Buf     *Obj
-	Init    *State
-	Domain  []*Term // callee ok-domains assumed (counts fit prefixes, dyn keys registered, parts encodable)
-	Canon   []*Term // round-trip domain contributed by the writers' canon clauses
-	Paths   []*EncPath
-	Obs     []*Obligation
+	T      *MsgType
+	Recv   *Obj
+	Fields map[int]Value // symbolic field values before the call
+	U0     *Term
+	Buf    *Obj
+	Init   *State
+	Domain []*Term // callee ok-domains assumed (counts fit prefixes, dyn keys registered, parts encodable)
+	Canon  []*Term // round-trip domain contributed by the writers' canon clauses
+	Paths  []*EncPath
+	Obs    []*Obligation
 }
 
 // newReceiver builds a receiver object whose fields hold arbitrary values of their types.
@@ -208,7 +208,7 @@ func (V *Verifier) EncodeOK(mt *MsgType, props []string) *EncInfo {
 func (V *Verifier) EncodeSafe(mt *MsgType, props []string) []*Obligation {
 	x := V.msgExec(mt, mt.Enc, "safe", props)
 	x.emitSafe = true
-	st, _, _, buf := x.startMsg(mt, "p")
+	st, recvE, _, buf := x.startMsg(mt, "p")
 	u0 := st.get(buf).Seq
 	x.old = st.clone()
 	// the schema contract used at call sites says "err == nil ==> exactly the format was appended"; it is sound
@@ -225,6 +225,7 @@ func (V *Verifier) EncodeSafe(mt *MsgType, props []string) []*Obligation {
 		if en.IsFalse() || s.implied(en) == -1 {
 			return
 		}
+		x.dynObligations(s, mt, x.old, recvE, en, false)
 		s2 := s.clone()
 		s2.assume(en)
 		for k, h := range s.domain {
@@ -438,6 +439,7 @@ func (V *Verifier) DecodeSafe(mt *MsgType, props []string) []*Obligation {
 				x.obligeProps(s, "frame", fmt.Sprintf("frame/fresh-field(%s)@%s", mt.Struct.Field(i).Name(), tag), BoolC(ok), "a decoded list does not alias the source buffer or the old content (provenance: "+sl.Arr.Prov+")", []string{"C16"})
 			}
 		}
+		x.dynObligations(s, mt, x.old, recvObj, en, true)
 		x.oblige(s, "ensures", "min-consumption@"+tag, Implies(en, Le(Add(Len(u), IntC(V.minWidth(mt))), Len(u0))), fmt.Sprintf("a successful decode consumes at least the %d fixed bytes of the format", V.minWidth(mt)))
 		if V.checkAlloc {
 			a, b := V.allocConsts(mt)
@@ -653,6 +655,87 @@ func (V *Verifier) scoutDyns(mt *MsgType) []DynSpec {
 	}
 	x.execAll(st)
 	return out
+}
+
+// scoutFills: which discriminator tables the Encode of a type consults (to create a part the caller left nil).
+func (V *Verifier) scoutFills(mt *MsgType) map[string]bool {
+	out := map[string]bool{}
+	x := V.msgExec(mt, mt.Enc, "scout", nil)
+	st, _, _, _ := x.startMsg(mt, "p")
+	x.old = st.clone()
+	x.onCall = func(s *State, rec *CallRecord) {
+		if rec.Kind == "table" {
+			out[rec.Table] = true
+		}
+	}
+	x.onReturn = func(s *State, res []Value) {}
+	x.execAll(st)
+	return out
+}
+
+// dynObligations (C12): what a nil result of Encode / Decode says about the discriminators of the pinned dyn clauses.
+// Decode: the decoded key is registered and the part built is of the type pinned for it.
+// Encode: wherever the encoder fills in a part the caller left nil (pinned `fills`), the key is registered and
+// the part it stored is of the pinned type.
+func (x *Exec) dynObligations(s *State, mt *MsgType, init *State, recv *Obj, en *Term, decode bool) {
+	V := x.V
+	ly := V.layoutFor(mt)
+	if ly == nil {
+		return
+	}
+	idx := func(name string) int {
+		for i := 0; i < mt.Struct.NumFields(); i++ {
+			if mt.Struct.Field(i).Name() == name {
+				return i
+			}
+		}
+		return -1
+	}
+	for _, d := range ly.Dyns {
+		if !decode && !d.Fills {
+			continue
+		}
+		fi, ki := idx(d.Field), idx(d.Key)
+		ti := V.tables[mt.Pkg.Pkg.Path()+"."+d.Table]
+		if fi < 0 || ki < 0 || ti == nil {
+			continue
+		}
+		final := s.get(recv).Fields
+		keyV := final[ki]
+		if !decode {
+			keyV = init.get(recv).Fields[ki]
+		}
+		key := keyValueTerm(keyV)
+		if key == nil {
+			x.obligeProps(s, "ensures", fmt.Sprintf("discriminator(%s)/key-readable@%s", d.Field, pathTag(s)), False, "the discriminator field has a value the table can be asked for", []string{"C12"})
+			continue
+		}
+		dom, tag, ok := V.tableTerms(ti, key)
+		if !ok {
+			continue
+		}
+		hyp := en
+		if !decode {
+			_, wasNil := dynOf(init.get(recv).Fields[fi])
+			hyp = And(en, orFalse(wasNil))
+		}
+		if hyp.IsFalse() {
+			continue
+		}
+		what := "a successful Decode means that the discriminator read from the wire is registered"
+		if !decode {
+			what = "Encode succeeds on a part the caller left out only if the discriminator is registered"
+		}
+		x.obligeProps(s, "ensures", fmt.Sprintf("discriminator(%s)/unknown-is-error@%s", d.Field, pathTag(s)), Implies(hyp, dom), what, []string{"C12"})
+		o, isnil := dynOf(final[fi])
+		var typed *Term
+		if o == nil {
+			typed = False
+		} else {
+			typed = And(Not(orFalse(isnil)), Eq(s.get(o).Tag, tag))
+		}
+		x.obligeProps(s, "ensures", fmt.Sprintf("discriminator(%s)/builds-pinned-type@%s", d.Field, pathTag(s)), Implies(And(hyp, dom), typed), "the part built for a registered discriminator is of the type pinned for it", []string{"C12"})
+	}
 }
 
 // outsideRoundTripDomain: a frame whose body the caller left nil (and the encoder skipped) has no
